@@ -32,13 +32,19 @@ def handle (j : Json) : IO Unit := do
   let invalid := jbool (jget sc "invalid")
   let eps : List Ep := types.zipIdx.map (fun (t, i) => ⟨i, t⟩)
   let refuses (i : Nat) : Bool := refuse.getD i false
-  let outcome (i : Nat) : Attempt := if refuses i then attemptOf "refuse" false default 0 else .ok ⟨200, [], []⟩
+  -- histories: endpoint i closes the connection without answering / its engine breaker is open (skipped)
+  let faults := jstrList (jget sc "fault")
+  let openB := (jarr (jget sc "breaker_open")).map jbool
+  let faultOf (i : Nat) : String := if openB.getD i false then "open" else faults.getD i ""
+  let outcome (i : Nat) : Attempt :=
+    if faultOf i != "" then attemptOf (faultOf i) false default 0
+    else if refuses i then attemptOf "refuse" false default 0 else .ok ⟨200, [], []⟩
   let select (l : List Nat) : Option Nat := l.head?      -- priority balancer, priorities fall with the index
   let clientBody : List UInt8 := [1]                      -- bodies are compared through `identical`; the translation changes the bytes
   let r := run enabled genSupport (fun b => 0 :: b) (!invalid) select outcome eps clientBody
   let mObs := r.observed enabled (fun i => resolvedNative (types.getD i "")) clientBody
   -- a refused connection never reaches the backend's recorder
-  let mDeliveries := mObs.deliveries.filter (fun d => !refuses d.ep)
+  let mDeliveries := mObs.deliveries.filter (fun d => !refuses d.ep && faultOf d.ep != "open")
   let deliveries : List Delivery := (jarr (jget impl "deliveries")).map (fun d =>
     ⟨jnat (jget d "ep"), jstr (jget d "path"), fmtOf (jstr (jget d "shape")), jbool (jget d "identical")⟩)
   let modeS := jstr (jget impl "mode")
@@ -48,7 +54,9 @@ def handle (j : Json) : IO Unit := do
   let hmode : Olla.Model.Handler.Mode := if r.decision.isPassthrough then .passthrough (r.decision.targets.map (·.id)) else .translate
   let hproblem : Option Olla.Model.Handler.ReqProblem := if invalid then some .invalid else none
   let hrq : Olla.Model.Handler.Req := { route := .anthropic, stream := jbool (jget sc "stream"), mode := hmode, problem := hproblem }
-  let houtcome (i : Nat) : Attempt := if refuses i then attemptOf "refuse" false default 0 else .ok ⟨200, [("Content-Type", "application/json")], [1]⟩
+  let houtcome (i : Nat) : Attempt :=
+    if faultOf i != "" then attemptOf (faultOf i) false default 0
+    else if refuses i then attemptOf "refuse" false default 0 else .ok ⟨200, [("Content-Type", "application/json")], [1]⟩
   let mStatus : Nat := (Olla.Model.Handler.serve Olla.Model.Handler.active hrq (fun _ => .completion) 1 select houtcome (eps.map (·.id))).status
   let mStats : Nat × Nat := if r.decision.isPassthrough then (1, 0) else (0, 1)
   let stats := (jnat (jget impl "stat_passthrough"), jnat (jget impl "stat_translation"))
